@@ -3,6 +3,8 @@ package iavl
 import (
 	"fmt"
 	"strings"
+
+	"github.com/pkg/errors"
 )
 
 // pathWithLeaf is a path to a leaf node and the leaf node itself.
@@ -71,6 +73,27 @@ func (pl PathToLeaf) computeRootHash(leafHash []byte) []byte {
 		hash = pin.Hash(hash)
 	}
 	return hash
+}
+
+// validate rejects inner nodes that no tree produces. A path node carries the hash of exactly one
+// child (the other child is the next node of the path, or the leaf) and has a positive height; the
+// paths between two consecutive leaves of a range proof (RangeProof.InnerNodes) only ever descend
+// to the left. ProofInnerNode.Hash ignores Right when Left is set, and hashes a node of height 0
+// exactly like a leaf, so without these checks a proof can carry leaves that never reach the root
+// hash, skip leaves of the tree, or pass a leaf off as an inner node.
+func (pl PathToLeaf) validate(leftmost bool) error {
+	for _, pin := range pl {
+		if pin.Height <= 0 {
+			return errors.Wrap(ErrInvalidProof, "inner node with non-positive height")
+		}
+		if (len(pin.Left) == 0) == (len(pin.Right) == 0) {
+			return errors.Wrap(ErrInvalidProof, "inner node must carry exactly one child hash")
+		}
+		if leftmost && len(pin.Left) != 0 {
+			return errors.Wrap(ErrInvalidProof, "path between consecutive leaves must descend leftmost")
+		}
+	}
+	return nil
 }
 
 func (pl PathToLeaf) isLeftmost() bool {
